@@ -16,6 +16,12 @@ def run(ctx):
     ctx.run_rule("R2", lambda c: vc.rule_double_checked_creation(c, f, "R2"))
     ctx.run_rule("R3", lambda c: vc.rule_no_guard_across_acquisition(c, f, "R3"))
     ctx.run_rule("R4", lambda c: vc.rule_single_critical_section(c, f, "R4"))
+    # the abstract object is a map from label VALUES to children: the map key must be the same function of the values on both request
+    # forms, over every value (shared with C05.R1/R2) — otherwise one tuple has two children and a collection shows it twice
+    from . import C05, C06
+    ctx.rule("R6", "the map key is an injective, form-independent function of the label values (shared with C05.R1, C05.R2): separators, every value hashed, "
+                   "slice form and map form agree")
+    ctx.run_rule("R6", lambda c: C06._as(c, "R6", lambda s: (C05.rule_R1(s, f), C05.rule_R2(s, f))))
     if ctx.tier == "thorough":
         g = ctx.facts("plain")
         ctx.run_rule("R2@plain", lambda c: vc.rule_double_checked_creation(c, g, "R2@plain"))
